@@ -58,6 +58,7 @@ struct Op {
     // source / signal definitions
     int id = 0, src = 0, stype = 0;
     std::string dtype = "f32";
+    int q = 0;              // fixed-point exponent field of the data type (bits 16..23); 0 for the plain types
     uint32_t rate = 0, spd = 0, sdf = 0, eps = 0, sumdf = 0, annodf = 0, utcdf = 0;
     OptStr name, units, vendor, model, version, serial;
     // data ops
@@ -91,7 +92,7 @@ inline mj::Value op_to_json(const Op & o) {
         v.set("id", o.id); v.set("name", o.name.json()); v.set("vendor", o.vendor.json()); v.set("model", o.model.json());
         v.set("version", o.version.json()); v.set("serial", o.serial.json());
     } else if (o.op == "signal") {
-        v.set("id", o.id); v.set("src", o.src); v.set("stype", o.stype); v.set("dtype", o.dtype); v.set("rate", (long long) o.rate);
+        v.set("id", o.id); v.set("src", o.src); v.set("stype", o.stype); v.set("dtype", o.dtype); if (o.q) v.set("q", o.q); v.set("rate", (long long) o.rate);
         v.set("spd", (long long) o.spd); v.set("sdf", (long long) o.sdf); v.set("eps", (long long) o.eps); v.set("sumdf", (long long) o.sumdf);
         v.set("annodf", (long long) o.annodf); v.set("utcdf", (long long) o.utcdf); v.set("name", o.name.json()); v.set("units", o.units.json());
     } else if (o.op == "fsr") {
@@ -127,7 +128,7 @@ inline Op op_from_json(const mj::Value & v) {
         o.id = (int) v.get_int("id", 0); o.src = (int) v.get_int("src", 0); o.stype = (int) v.get_int("stype", 0);
         o.dtype = v.get_str("dtype", "f32"); o.rate = (uint32_t) v.get_int("rate", 0);
         o.spd = (uint32_t) v.get_int("spd", 0); o.sdf = (uint32_t) v.get_int("sdf", 0); o.eps = (uint32_t) v.get_int("eps", 0);
-        o.sumdf = (uint32_t) v.get_int("sumdf", 0); o.annodf = (uint32_t) v.get_int("annodf", 0); o.utcdf = (uint32_t) v.get_int("utcdf", 0);
+        o.q = (int) v.get_int("q", 0); o.sumdf = (uint32_t) v.get_int("sumdf", 0); o.annodf = (uint32_t) v.get_int("annodf", 0); o.utcdf = (uint32_t) v.get_int("utcdf", 0);
         o.name = OptStr::from(v.find("name")); o.units = OptStr::from(v.find("units"));
     } else if (o.op == "fsr") {
         o.sig = (int) v.get_int("sig", 0); o.sample_id = v.get_int("id", 0); o.n = (uint32_t) v.get_int("n", 0);
@@ -322,7 +323,7 @@ inline int32_t exec_op(Writer & w, const Op & o, const Model & m) {
         struct jls_signal_def_s d = {};
         const DType * dt = dtype_by_name(o.dtype);
         d.signal_id = (uint16_t) o.id; d.source_id = (uint16_t) o.src; d.signal_type = (uint8_t) o.stype;
-        d.data_type = dt ? dt->code : 0; d.sample_rate = o.rate;
+        d.data_type = dt ? (dt->code | ((uint32_t) (o.q & 0xff) << 16)) : 0; d.sample_rate = o.rate;
         d.samples_per_data = o.spd; d.sample_decimate_factor = o.sdf; d.entries_per_summary = o.eps; d.summary_decimate_factor = o.sumdf;
         d.annotation_decimate_factor = o.annodf; d.utc_decimate_factor = o.utcdf;
         d.name = cs.get(o.name); d.units = cs.get(o.units);
